@@ -132,6 +132,47 @@ def _op_mut_passed(ctx, model):
     return None, None
 
 
+def _op_set_passed_again(ctx, model):
+    """re-submit the very object passed to the previous set call (possibly mutated by the caller in between)"""
+    p = ctx.get("passed")
+    if not isinstance(p, dict):
+        return None, None
+    snapshot = copy.deepcopy(p)
+    try:
+        r = _SF.set_semantic_constraints(p)
+        obs = "ok" if r is None else "returned %r" % (r,)
+    except ValueError:
+        obs = "ValueError"
+    except Exception as e:
+        obs = type(e).__name__
+    return obs, model.set(snapshot)
+
+
+def _op_set_got(ctx, model):
+    """get-modify-set with the dict handed out by the getter"""
+    g = ctx.get("got")
+    if not isinstance(g, dict):
+        return None, None
+    snapshot = copy.deepcopy(g)
+    ctx["passed"] = g
+    try:
+        r = _SF.set_semantic_constraints(g)
+        obs = "ok" if r is None else "returned %r" % (r,)
+    except ValueError:
+        obs = "ValueError"
+    except Exception as e:
+        obs = type(e).__name__
+    return obs, model.set(snapshot)
+
+
+def _op_mut_passed_valid(ctx, model):
+    p = ctx.get("passed")
+    if isinstance(p, dict) and "?" in p:
+        p["N"] = 1
+        p["Ge"] = 3
+    return None, None
+
+
 def op_preset(name):
     def f(ctx, model):
         try:
@@ -219,6 +260,8 @@ CONFIG_OPS = [
     op_set({"?": 2, "C": 1, "N": 1.5}, "non-integer-after-valid-entries"), op_set("nope", "unknown-preset"),
     op_set(5, "wrong-type"), op_set({"?": 1, "C+0": 1}, "charge-zero-key"),
     Op("get", _op_get, "config"), Op("mutate-got", _op_mut_got, "mutate"), Op("mutate-passed", _op_mut_passed, "mutate"),
+    Op("mutate-passed-keeping-it-valid", _op_mut_passed_valid, "mutate"), Op("set(same object as last time)", _op_set_passed_again, "config"),
+    Op("set(dict from get)", _op_set_got, "config"),
     op_preset("default"), op_preset("octet_rule"), op_preset("nope"), Op("mutate-preset", _op_mut_preset, "mutate"),
     Op("alphabet", _op_alpha, "config"), Op("mutate-alphabet", _op_mut_alpha, "mutate"),
 ]
@@ -226,6 +269,7 @@ TRANSLATE_OPS = [
     op_dec("[Si][=C][N+1][Ring1][Ring1]"), op_dec("[C][Xe][Foo]"),
     op_dec("[C][C][C][Ring1][Ring1][Branch1][Ring1][C][Foo]"),          # fails with a ring queued and a branch open
     op_dec("[C][C][=Ring1][C].[N][C][C][Ring1][Ring2][CH9]", attribute=True),   # fails in the 2nd fragment, rings pending
+    op_dec("[C][Branch1][Ring2][C][Branch1][C][Foo]", attribute=True),            # fails inside a nested branch, attributed
     op_enc("C1CC1C(C)(C"), op_enc("c1ccccc1C(F)(F)(F)(F)F"), op_enc("C1CC1c1cccc1", attribute=True),   # fail late op_dec("[C][N].[O]", attribute=True),
     op_dec("[C@@Hexpl][Branch1_2][C][O]", compatible=True), op_dec("[CH1][#C][Fe+10]"),
     op_enc("c1ccccc1[Si]"), op_enc("C(F)(F)(F)(F)F"), op_enc("CN", attribute=True), op_enc("C(F)(F)(F)(F)F", strict=False),
@@ -234,8 +278,22 @@ TRANSLATE_OPS = [
 
 
 # ------------------------------------------------------------------ probes (C11's oracle)
+def _plain(res):
+    if isinstance(res, tuple):
+        return [res[0], [(a.index, a.token, [(x.index, x.token) for x in (a.attribution or [])]) for a in res[1]]]
+    return res
+
+
 def probe():
     r = []
+    for x, f in (("[C][N][Branch1][C][P][C][C][Ring1][=Branch1]", "decoder"), ("[C][O].[N][=Branch1][C][=O][F]", "decoder"),
+                 ("C1([O-])C=CC=C1Cl", "encoder")):
+        try:
+            r.append(_plain(getattr(_SF, f)(x, attribute=True)))
+        except (_SF.DecoderError, _SF.EncoderError):
+            r.append("rejected")
+        except Exception as e:
+            r.append("escaped " + type(e).__name__)
     for x in PROBES_D:
         try:
             r.append(_SF.decoder(x))
@@ -369,7 +427,11 @@ def check_state(menu, hist, r, use_probes, prop, check_config=True):
             if got != expp:
                 ok = False
                 k = [i for i, (x, y) in enumerate(zip(got, expp)) if x != y][0]
-                what = PROBES_D[k] if k < len(PROBES_D) else PROBES_E[(k - len(PROBES_D)) // 2]
+                if k < 3:
+                    what = "attribute=True probe #%d" % k
+                else:
+                    k2 = k - 3
+                    what = PROBES_D[k2] if k2 < len(PROBES_D) else PROBES_E[(k2 - len(PROBES_D)) // 2]
                 r.violation("translation-depends-on-history", case,
                             "probe %r returns %r after this history but %r on a fresh library set to the same table" % (
                                 what, got[k], expp[k]))
@@ -489,7 +551,7 @@ def cross_process_checks(total):
     H.restore()
     for name, t in (("default", "default"), ("T1", T1), ("T2", T2), ("hypervalent", "hypervalent")):
         sf.set_semantic_constraints(t if isinstance(t, str) else dict(t))
-        got = probe() + sorted(sf.get_semantic_robust_alphabet())
+        got = json.loads(json.dumps(probe() + sorted(sf.get_semantic_robust_alphabet())))   # same normal form as the sub-process output
         if got != base[name]:
             total.violation("restored-library-differs-from-fresh-process", {"table": name},
                             "probe results under %s differ between a restored library and a fresh process" % name)
